@@ -1,6 +1,9 @@
 import SJ.Props.C19
 import SJ.Props.C01Iff
 import SJ.Props.C19Nested
+import SJ.Props.C19Map
+import SJ.Props.C19Value
+import SJ.Props.C19Struct
 #print axioms SJ.Props.C19.runPrefix_feed
 #print axioms SJ.Props.C19.c19_captured_reparses
 #print axioms SJ.Props.C19.skipWs_prefix
@@ -18,3 +21,12 @@ import SJ.Props.C19Nested
 #print axioms SJ.Props.C19.c19_nested_canon
 #print axioms SJ.Props.C19.c19_nested_capture_map
 #print axioms SJ.Props.C19.c19_nested_grammar_map
+#print axioms SJ.Props.C19.c19_nested_complete_map
+#print axioms SJ.Props.C19.c19_nested_canon_map
+#print axioms SJ.Props.C19.c19_nested_canon_map_last
+#print axioms SJ.Props.C19.c19_to_value
+#print axioms SJ.Props.C19.c19_to_value_of_parse
+#print axioms SJ.Props.C19.c19_to_value_canon
+#print axioms SJ.Props.C19.c19_from_value
+#print axioms SJ.Props.C19.c19_field_capture
+#print axioms SJ.Props.C19.c19_field_text
